@@ -43,9 +43,6 @@ Qed.
 (* ================================================================================== *)
 (* (a) the store invariant *)
 
-(* authorization codes recorded in grants are empty or were minted before operation n *)
-Definition gcodes_old (n : nat) (st : store) : Prop :=
-  forall g, In g (st_gsess st) -> g_code g = 0 \/ exists j, (j < n)%nat /\ g_code g = mint j KCode.
 Definition cinv (n : nat) (st : store) : Prop := gcodes_old n st /\ no_code_twice st.
 
 (* what a save must satisfy, in the store it is performed on *)
